@@ -1,5 +1,7 @@
 (* C11 model: umbrella file.  Prim.v: Go operations that can panic; Msg.v:
    messages, transports, ZMQ ingest, registrar, HTTP handlers; Flight.v:
    first-flight classification; Dns.v: DNS responder; Down.v: the ingest worker's
-   body downstream of parseRegMessage, DTLS Connect's parameter use, work bounds. *)
-From CJ Require Export C11.Prim C11.Msg C11.Flight C11.Dns C11.Down.
+   body downstream of parseRegMessage, DTLS Connect's parameter use, work bounds;
+   Stats.v: the statistics epoch (accounting of accepted registrations against the
+   ticker's PrintAndReset) as a transition system over lock-protected regions. *)
+From CJ Require Export C11.Prim C11.Msg C11.Flight C11.Dns C11.Down C11.Stats.
